@@ -18,6 +18,36 @@ CHECKS = {
     ),
 }
 
+CHECKS.update({
+    "C01": (
+        "Hypothesis-generated DAG programs vs NumPy reference interpreter with complex-step derivatives; metamorphic re-ordering",
+        "Generated search over programs (state-aware DAG builder, ~100 op spellings) with two oracles: exact "
+        "complex-step derivatives through an independent NumPy interpreter for every leaf and intermediate, and "
+        "order-independence under random topological re-ordering / commutative swaps. Exploration only.",
+        "Trusts NumPy forward kernels and the complex-step identity; tensors <= 24 elements, <= 12 statements; "
+        "points within 1e-7 of a kink are only checked structurally.",
+        "DESIGN.md §3 C01",
+    ),
+    "C04": (
+        "Hypothesis-generated histories executed in lock-step on MyGrad and NumPy mirrors (model-based invariant after every step)",
+        "Model-based search over histories of view creation, reads and in-place updates on any member of any view "
+        "family; after every statement values, shapes, dtypes, the full pairwise shares_memory matrix, .base, object "
+        "identity and constant flags are compared with NumPy mirrors. Exploration only.",
+        "Leaves own their memory; view ops applied to tensors only; size-0 tensors exempt from sharing clauses; <= 16 "
+        "elements, <= 16 steps.",
+        "DESIGN.md §3 C04",
+    ),
+    "C05": (
+        "Hypothesis-generated in-place/view histories + weighted terminal; complex-step derivatives through NumPy reference with real in-place semantics",
+        "Generated search over programs that mutate tensors in place and read them through views before and after; "
+        "every live tensor's gradient is compared with the exact complex-step derivative of the same statements run on "
+        "NumPy arrays (mutated memory perturbed right after its last write). Exploration only.",
+        "Trusts NumPy in-place semantics as the functional meaning; None and all-zero gradients are both accepted "
+        "where the reference gradient is identically zero.",
+        "DESIGN.md §3 C05",
+    ),
+})
+
 NOT_YET = {
 }
 
